@@ -595,6 +595,18 @@ def gen_random_history(rng, groups, sizes, n):
         elif r < 0.84:
             k = rng.randrange(0, 5)
             l = [rng.choice(paths + junk) for _ in range(k)]
+            if present and rng.random() < 0.4:
+                # a re-scan style batch: files that are on disk (reported or not), among them the oldest of a channel
+                # and a file written behind the handler's back just now
+                pool = sorted(present)
+                l = rng.sample(pool, min(len(pool), rng.randrange(2, 7)))
+                g = rng.choice(groups)
+                late = (g, key_of(nxt[g] % NKEYS, g), 0)
+                nxt[g] += 1
+                ops.append(("W", late, rng.choice(sizes)))
+                present.add(late)
+                l.append(late)
+                l.append(min(pool, key=lambda t: (t[1], t[0], t[2])))
             if rng.random() < 0.3:
                 ops.append(("AG", l))
             else:
